@@ -161,6 +161,10 @@ def _consume_model(ctx, quick):
     cfg = _consume_cfg(ctx, "MC_Consume_run.cfg", "Spec", pages, rows, invs=CONSUME_INVS, props=CONSUME_PROPS)
     r = vf.tlc_must_pass(ctx, "MC_Consume", cfg, workers=4, timeout=1200, heap="3g", name="consume_mc")
     res = dict(distinct=r.distinct, generated=r.generated, depth=r.depth, max_pages=pages, max_rows=rows, refuted={})
+    # termination of the consumer loops under weak fairness of Scan / Next
+    cl = _consume_cfg(ctx, "MC_Consume_live.cfg", "FairSpec", pages, rows, props="IterationEnds")
+    rl = vf.tlc_must_pass(ctx, "MC_Consume", cl, workers=2, timeout=1200, heap="3g", name="consume_live")
+    res["liveness"] = dict(property="IterationEnds", distinct=rl.distinct)
     for v, prop in CONSUME_WRONG.items():
         c = _consume_cfg(ctx, "MC_Consume_x_%s.cfg" % v, "Spec", 2, 2, variant=v, invs=CONSUME_INVS, props=CONSUME_PROPS)
         rx = vf.run_tlc(ctx, "MC_Consume", c, workers=2, timeout=900, heap="2g", name="consume_x_" + v, quiet=True)
@@ -214,9 +218,6 @@ def _consume_paths(ikeys, edges):
     return paths
 
 
-def _viol_key(part, rec_or_v, what):
-    return "%s/%s[%s]/%s/%s-%s" % (part, rec_or_v["op"], rec_or_v["v"], what, rec_or_v["via"], rec_or_v["shape"])
-
 
 def _monitor(ctx, module, cfg, path, tag, timeout=1500):
     r = vf.run_tlc(ctx, module, cfg, workers=1, heap="3g", timeout=timeout, env={"VF_TRACE": path}, deadlock=False,
@@ -249,9 +250,6 @@ def _shard(ctx, recs, k, tag):
             paths.append(p)
     return paths, {b[0]["id"]: b for b in blocks}
 
-
-def _panic_site(note):
-    return re.sub(r"0x[0-9a-f]+", "0x..", note or "")[:120]
 
 
 def consume_step_diff(r, exp):
